@@ -154,7 +154,7 @@ impl SimTransport {
                 budget,
                 over_budget: AtomicBool::new(false),
                 runaway: AtomicBool::new(false),
-                endless_cap: 8 << 20,
+                endless_cap: 12 << 20,
             }),
         }
     }
